@@ -14,6 +14,8 @@ import (
 func init() { register("C02", checkC02) }
 
 func checkC02(p *Prog, r *Report) {
+	r.rule("C02.check-complete: SoftResource.check, which Get runs before MarshalResource reads a soft resource's values, cannot return before its loops that zero-fill missing and drop stale fields (shared with C17)")
+	checkSoftCheckComplete(p, r, "C02")
 	r.rule("C02.kind-dispatch: every kind of primary data MarshalDocument accepts (the case types of its type switch, and nil) has a branch in UnmarshalDocument that stores a value of that kind into Data; the branch is selected by the first byte that the corresponding marshaler produces ('{' for json.Marshal of a map, '[' for a slice or the literal [], the literal null)")
 	r.rule("R5 tag tables: the members MarshalDocument writes that carry document state (data, errors, included, meta) are exactly the json tags of payloadSkeleton; Error.MarshalJSON writes every field of Error under that field's own json tag")
 	r.rule("C02.order (counted-loop shape): MarshalCollection, UnmarshalCollection, the included loops of MarshalDocument and UnmarshalDocument each run an index 0,1,2,… up to the length of their source, emit exactly one output element per iteration (append / Add, dominating the back edge), computed from the source element at that very index, and are left early only by returning an error; Resources.Add appends at the end; At/Len of the shipped collections are views of one underlying list")
@@ -94,36 +96,7 @@ func checkC02Dispatch(p *Prog, r *Report, md, ud, mr, mc *ssa.Function) {
 	})
 	kinds["nil"] = true
 	// unmarshal side: what is stored into Data, and under which first-byte test
-	type branch struct {
-		kind string
-		st   *ssa.Store
-	}
-	var branches []branch
-	eachInstr(ud, func(ins ssa.Instruction) {
-		st, ok := ins.(*ssa.Store)
-		if !ok {
-			return
-		}
-		fa, ok := st.Addr.(*ssa.FieldAddr)
-		if !ok {
-			return
-		}
-		if _, fl := fieldRef(fa.X, fa.Field); fl != "Data" || !strings.HasSuffix(typeStr(deref(fa.X.Type())), "Document") {
-			return
-		}
-		k := "?"
-		switch v := st.Val.(type) {
-		case *ssa.Const:
-			if v.Value == nil {
-				k = "nil"
-			}
-		case *ssa.ChangeInterface:
-			k = strings.TrimPrefix(fmtTypeString(v.X.Type()), "jsonapi.")
-		case *ssa.MakeInterface:
-			k = strings.TrimPrefix(fmtTypeString(v.X.Type()), "jsonapi.")
-		}
-		branches = append(branches, branch{k, st})
-	})
+	branches := c02DataBranches(p, ud)
 	var ks []string
 	for k := range kinds {
 		ks = append(ks, k)
@@ -161,7 +134,7 @@ func checkC02Dispatch(p *Prog, r *Report, md, ud, mr, mc *ssa.Function) {
 			r.decide(reflect.DeepEqual(got, w.bytes), "C02.kind-dispatch", funcName(w.producer)+":first-byte", p.pos(w.producer.Pos()), "always starts with "+strings.Join(w.bytes, ""),
 				fmt.Sprintf("%s can produce JSON starting with %v: UnmarshalDocument would not take the %s branch for it", funcName(w.producer), got, b.kind))
 			ch := byte(w.bytes[0][0])
-			ok := mustPassEdge(ud, b.st.Block(), func(cond ssa.Value, truth bool) bool {
+			ok := mustPassEdge(b.fn, b.blk, func(cond ssa.Value, truth bool) bool {
 				bo, isB := cond.(*ssa.BinOp)
 				if !isB || bo.Op != token.EQL || !truth {
 					return false
@@ -182,25 +155,24 @@ func checkC02Dispatch(p *Prog, r *Report, md, ud, mr, mc *ssa.Function) {
 				if i0, ok := constInt(ia.Index); !ok || i0 != 0 {
 					return false
 				}
-				_, fl, ok := fieldLoad(ia.X)
-				return ok && fl == "Data"
+				return b.isData(ia.X)
 			})
-			r.decide(ok, "C02.kind-dispatch", "UnmarshalDocument:"+b.kind+":selected-by-first-byte", p.pos(b.st.Pos()), "stored only when data starts with "+w.bytes[0], "the "+b.kind+" branch of UnmarshalDocument is not selected by the first byte "+w.bytes[0]+" of data")
+			r.decide(ok, "C02.kind-dispatch", "UnmarshalDocument:"+b.kind+":selected-by-first-byte", p.pos(b.pos), "stored only when data starts with "+w.bytes[0], "the "+b.kind+" branch of UnmarshalDocument is not selected by the first byte "+w.bytes[0]+" of data")
 			// and the value stored comes from the matching unmarshaler applied to ske.Data
 			okSrc := false
-			if ci, isCI := b.st.Val.(*ssa.ChangeInterface); isCI {
+			if ci, isCI := b.val.(*ssa.ChangeInterface); isCI {
 				if c, _ := callOf(ci.X); c != nil && c.Common().StaticCallee() != nil {
 					name := funcName(c.Common().StaticCallee())
 					if (b.kind == "Resource" && name == "UnmarshalResource") || (b.kind == "Collection" && name == "UnmarshalCollection") {
-						if _, fl, ok := fieldLoad(unbox(c.Common().Args[0])); ok && fl == "Data" {
+						if b.isData(unbox(c.Common().Args[0])) {
 							okSrc = true
 						}
 					}
 				}
 			}
-			r.decide(okSrc, "C02.kind-dispatch", "UnmarshalDocument:"+b.kind+":source", p.pos(b.st.Pos()), "the stored value is Unmarshal"+b.kind+"(ske.Data, schema)", "the value stored as "+b.kind+" primary data is not the result of the matching unmarshaler applied to the data member")
+			r.decide(okSrc, "C02.kind-dispatch", "UnmarshalDocument:"+b.kind+":source", p.pos(b.pos), "the stored value is Unmarshal"+b.kind+"(ske.Data, schema)", "the value stored as "+b.kind+" primary data is not the result of the matching unmarshaler applied to the data member")
 		case "nil":
-			ok := mustPassEdge(ud, b.st.Block(), func(cond ssa.Value, truth bool) bool {
+			ok := mustPassEdge(b.fn, b.blk, func(cond ssa.Value, truth bool) bool {
 				bo, isB := cond.(*ssa.BinOp)
 				if !isB || bo.Op != token.EQL || !truth {
 					return false
@@ -208,7 +180,7 @@ func checkC02Dispatch(p *Prog, r *Report, md, ud, mr, mc *ssa.Function) {
 				s, isC := constString(bo.Y)
 				return isC && s == "null"
 			})
-			r.decide(ok, "C02.kind-dispatch", "UnmarshalDocument:nil:selected-by-null", p.pos(b.st.Pos()), "nil stored only for the literal null", "nil primary data is stored for something other than the literal null")
+			r.decide(ok, "C02.kind-dispatch", "UnmarshalDocument:nil:selected-by-null", p.pos(b.pos), "nil stored only for the literal null", "nil primary data is stored for something other than the literal null")
 		}
 	}
 	// marshal side: nil data is the literal null
@@ -809,7 +781,7 @@ func checkC02Flow(p *Prog, r *Report, md, ud *ssa.Function) {
 		r.decide(isSkeField(e.Val, "Errors"), "C02.flow", "UnmarshalDocument:errors-whole", p.pos(e.Pos()), "doc.Errors = ske.Errors", "the errors are not taken over as a whole from the decoded errors member")
 	}
 	r.floor("Errors stores in UnmarshalDocument", len(errStores), 1)
-	r.floor("Data stores in UnmarshalDocument", len(dataStores), 3)
+	r.floor("Data stores in UnmarshalDocument (or values a dispatch helper returns for one)", len(c02DataBranches(p, ud)), 3)
 	included := findCountedLoops(ud)
 	for _, ret := range okRets {
 		key := "UnmarshalDocument:return@" + p.pos(ret.Pos())
@@ -1200,5 +1172,86 @@ func tableEntries(mu *ssa.MapUpdate) []tableEntry {
 		}
 	}
 	sort.Slice(out, func(i, j int) bool { return out[i].name < out[j].name })
+	return out
+}
+
+// A dataBranch is one way UnmarshalDocument gives Data a value: a store in
+// the function itself, or a value return of the small helper whose first
+// result is stored (the helper then does the dispatch on its parameter).
+type dataBranch struct {
+	kind      string
+	val       ssa.Value
+	blk       *ssa.BasicBlock
+	fn        *ssa.Function
+	pos       token.Pos
+	dataParam ssa.Value // in a helper: the parameter that receives ske.Data
+}
+
+func (b dataBranch) isData(v ssa.Value) bool {
+	v = unbox(v)
+	if b.dataParam != nil {
+		return v == b.dataParam
+	}
+	_, fl, ok := fieldLoad(v)
+	return ok && fl == "Data"
+}
+
+func c02DataBranches(p *Prog, ud *ssa.Function) []dataBranch {
+	kindOf := func(v ssa.Value) string {
+		switch x := v.(type) {
+		case *ssa.Const:
+			if x.Value == nil {
+				return "nil"
+			}
+		case *ssa.ChangeInterface:
+			return strings.TrimPrefix(fmtTypeString(x.X.Type()), "jsonapi.")
+		case *ssa.MakeInterface:
+			return strings.TrimPrefix(fmtTypeString(x.X.Type()), "jsonapi.")
+		}
+		return "?"
+	}
+	var out []dataBranch
+	eachInstr(ud, func(ins ssa.Instruction) {
+		st, ok := ins.(*ssa.Store)
+		if !ok {
+			return
+		}
+		fa, ok := st.Addr.(*ssa.FieldAddr)
+		if !ok {
+			return
+		}
+		if _, fl := fieldRef(fa.X, fa.Field); fl != "Data" || !strings.HasSuffix(typeStr(deref(fa.X.Type())), "Document") {
+			return
+		}
+		if ex, isEx := st.Val.(*ssa.Extract); isEx && ex.Index == 0 {
+			if hc, isCall := ex.Tuple.(*ssa.Call); isCall {
+				if g := hc.Common().StaticCallee(); g != nil && p.inTarget(g) && g.Blocks != nil && smallHelper(g) {
+					pi := -1
+					for i, a := range hc.Common().Args {
+						if _, fl, ok := fieldLoad(unbox(a)); ok && fl == "Data" && i < len(g.Params) {
+							pi = i
+						}
+					}
+					if pi >= 0 {
+						for _, blk := range g.Blocks {
+							ret, ok := blk.Instrs[len(blk.Instrs)-1].(*ssa.Return)
+							if !ok || len(ret.Results) != 2 {
+								continue
+							}
+							// error returns give Data no value the caller keeps
+							if !isNilConst(ret.Results[1]) {
+								if e1, ok := ret.Results[1].(*ssa.Extract); !ok || e1.Index != 1 {
+									continue
+								}
+							}
+							out = append(out, dataBranch{kindOf(ret.Results[0]), ret.Results[0], blk, g, ret.Pos(), g.Params[pi]})
+						}
+						return
+					}
+				}
+			}
+		}
+		out = append(out, dataBranch{kindOf(st.Val), st.Val, st.Block(), ud, st.Pos(), nil})
+	})
 	return out
 }
